@@ -15,6 +15,7 @@ mod p19;
 mod p07;
 mod p04;
 mod p18;
+mod p09;
 // MODULES (keep this list and the two dispatch tables below in sync)
 
 use std::io::{self, BufRead, Write, BufWriter};
@@ -28,6 +29,7 @@ pub fn dispatch_exec(op: &str, a: &[i64]) -> Option<String> {
   if let Some(r) = p07::exec(op, a) { return r; }
   if let Some(r) = p04::exec(op, a) { return r; }
   if let Some(r) = p18::exec(op, a) { return r; }
+  if let Some(r) = p09::exec(op, a) { return r; }
   // DISPATCH-EXEC
   Some("bad-op".to_string())
 }
@@ -42,6 +44,7 @@ pub fn dispatch_enum(name: &str, args: &[String], w: &mut dyn Write) -> bool {
   if p07::run_enum(name, args, w) { return true; }
   if p04::run_enum(name, args, w) { return true; }
   if p18::run_enum(name, args, w) { return true; }
+  if p09::run_enum(name, args, w) { return true; }
   // DISPATCH-ENUM
   false
 }
